@@ -48,7 +48,7 @@ Produce TWO independent changes ("mutants" A and B, different mechanisms / diffe
 1. still imports/compiles, and still passes the existing test suite exactly as before: run, from the worktree,
    `cd {wt} && rm -rf .hypothesis && PYTHONPATH={wt} /venv/bin/python -m pytest -q -p no:cacheprovider --timeout=900 -rA 2>&1 | grep -E "^PASSED" | sort > {out}/X_passed.txt`
    once on the unmodified tree (baseline) and once per change, and compare the PASSED ids: the set of passing tests must not
-   shrink (about 45 tests fail without any change, e.g. tests needing missing data files or hitting NumPy-2 incompatibilities
+   shrink (a few tests fail without any change, e.g. tests needing missing data files or hitting incompatibilities
    of a dependency; one hypothesis test is flaky).
    Make sure the worktree's code is what is imported (`PYTHONPATH={wt} /venv/bin/python -c "import bionumpy; print(bionumpy.__file__)"`
    must print a path under {wt}).
